@@ -71,36 +71,45 @@ namespace zoo {
       B_MISC = B_CONVERSIONS ZOO_CONVERSIONS(ZOO_COUNT),
    };
 
+   // classic expressions may carry a user-supplied implementation (set after construction): symbolically set or left unset
+   template<class P> const ipr::Expr* maybe_implementation(World& w, P* p) {
+      if constexpr (requires { p->op_impl; }) { if (w.flag()) { p->op_impl = *w.E[2]; return w.E[2]; } }
+      return nullptr;
+   }
+   template<class I> bool implementation_is(const I& n, const ipr::Expr* impl) {
+      if constexpr (requires { n.implementation(); }) return impl ? (n.implementation().is_valid() && same(n.implementation().get(), *impl)) : !n.implementation().is_valid();
+      else return true;
+   }
    // ---- pattern helpers
    template<class I, class V, class F> void unary_opt(World& w, V& v, F make) {
       v.generative();
       const ipr::Expr& a = w.e(); const ipr::Type* et; auto ty = w.ot(et);
-      const I& n = *make(a, ty);
-      v.template node<I>(n); v.operands(same(n.operand(), a)); v.typed(n, et);
+      auto* made = make(a, ty); const ipr::Expr* impl = maybe_implementation(w, made); const I& n = *made;
+      v.template node<I>(n); v.operands(same(n.operand(), a) && implementation_is(n, impl)); v.typed(n, et);
    }
    template<class I, class V, class F> void unary_req(World& w, V& v, F make) {
       v.generative();
       const ipr::Expr& a = w.e(); const ipr::Type& ty = w.t();
-      const I& n = *make(a, ty);
-      v.template node<I>(n); v.operands(same(n.operand(), a)); v.typed(n, &ty);
+      auto* made = make(a, ty); const ipr::Expr* impl = maybe_implementation(w, made); const I& n = *made;
+      v.template node<I>(n); v.operands(same(n.operand(), a) && implementation_is(n, impl)); v.typed(n, &ty);
    }
    template<class I, class V, class F> void binary_opt(World& w, V& v, F make) {
       v.generative();
       const ipr::Expr& a = w.e(); const ipr::Expr& b = w.e(); const ipr::Type* et; auto ty = w.ot(et);
-      const I& n = *make(a, b, ty);
-      v.template node<I>(n); v.operands(same(n.first(), a) && same(n.second(), b)); v.typed(n, et);
+      auto* made = make(a, b, ty); const ipr::Expr* impl = maybe_implementation(w, made); const I& n = *made;
+      v.template node<I>(n); v.operands(same(n.first(), a) && same(n.second(), b) && implementation_is(n, impl)); v.typed(n, et);
    }
    template<class I, class V, class F> void cast(World& w, V& v, F make) {
       v.generative();
       const ipr::Type& ty = w.t(); const ipr::Expr& a = w.e();
-      const I& n = *make(ty, a);
-      v.template node<I>(n); v.operands(same(n.first(), ty) && same(n.second(), a) && same(n.expr(), a)); v.typed(n, &ty);      // a cast has its target type
+      auto* made = make(ty, a); const ipr::Expr* impl = maybe_implementation(w, made); const I& n = *made;
+      v.template node<I>(n); v.operands(same(n.first(), ty) && same(n.second(), a) && same(n.expr(), a) && implementation_is(n, impl)); v.typed(n, &ty);      // a cast has its target type
    }
    template<class I, class V, class F> void conversion(World& w, V& v, F make) {
       v.generative();
       const ipr::Expr& a = w.e(); const ipr::Type& to = w.t(); const ipr::Type& res = w.t();
-      const I& n = *make(a, to, res);
-      v.template node<I>(n); v.operands(same(n.first(), a) && same(n.second(), to)); v.typed(n, &res);
+      auto* made = make(a, to, res); const ipr::Expr* impl = maybe_implementation(w, made); const I& n = *made;
+      v.template node<I>(n); v.operands(same(n.first(), a) && same(n.second(), to) && implementation_is(n, impl)); v.typed(n, &res);
    }
 
    template<class V> void build(World& w, unsigned which, V& v, unsigned* total = nullptr) {
@@ -327,7 +336,9 @@ namespace zoo {
               v.operands(same(n.name(), nm) && n.initializer().is_valid() && same(n.initializer().get(), ty)); v.typed(n, &lx.typename_type()); return; }          // an alias for a type has the type of its initializer
       ZCASE { v.generative(); impl::Warehouse<ipr::Type> w1; w1.push_back(lx.typename_type()); auto& fa = lx.get_forall(lx.get_product(w1), w.t()); const ipr::Name& nm = w.n(); bool primary = w.flag();
               impl::Template* t = primary ? w.reg->declare_primary_template(nm, fa) : w.reg->declare_secondary_template(nm, fa); const ipr::Template& n = *t; v.template node<ipr::Template>(n);
-              bool ok = same(n.name(), nm) && same(n.type(), fa) && vp_outcome([&] { n.mapping(); }) == 1 && n.specializations().size() == 0 && (!primary || same(n.primary_template(), n));
+              bool ok = same(n.name(), nm) && same(n.type(), fa) && vp_outcome([&] { n.mapping(); }) == 1 && n.specializations().size() == 0;
+              { bool redecl = n.decl_set().size() > 1; const ipr::Template* pt = nullptr; int out = vp_outcome([&] { pt = &n.primary_template(); });      /* a first primary declaration is its own primary template; a redeclaration shares what its master recorded (possibly nothing: logic_error) */
+                ok = ok && out != 2 && (redecl || !primary || (out == 0 && pt == &n)); }
               impl::Mapping* m = lx.make_mapping(*w.reg, Mapping_level{ 1 }); m->param(w.n(), lx.typename_type()); const ipr::Expr& body = w.e(); m->body = &body; t->init = m;
               v.operands(ok && same(n.mapping(), *m) && same(n.parameters(), m->parameters()) && same(n.result(), body) && n.initializer().is_valid() && same(n.initializer().get(), body)); v.typed(n, &fa); return; }
       ZCASE { const ipr::String& s = w.s(); const ipr::Linkage& k = w.flag() ? lx.get_linkage(s) : lx.get_linkage(s.characters()); const ipr::Calling_convention& cc = lx.get_calling_convention(w.s().characters());
